@@ -297,7 +297,7 @@ public:
       if (E->EvaluateAsRValue(R, Ctx) && R.Val.isFloat() && !R.HasSideEffects) {
         double D = R.Val.getFloat().convertToDouble();
         if (D != D) O["fc"] = "nan";
-        else if (D > 1e308 || D < -1e308) O["fc"] = D > 0 ? "inf" : "-inf";
+        else if (D > 1.7976931348623157e308 || D < -1.7976931348623157e308) O["fc"] = D > 0 ? "inf" : "-inf";
         else O["fc"] = D;
       }
     }
